@@ -65,22 +65,25 @@ Run(t, i, set) == IF i <= Len(t) /\ t[i] \in set THEN 1 + Run(t, i + 1, set) ELS
 EndOk(t, i, dollar, full) ==
   IF full THEN i = Len(t) + 1
   ELSE ~dollar \/ i = Len(t) + 1 \/ (i = Len(t) /\ t[i] = NL)
-RECURSIVE M(_, _, _, _, _), Try(_, _, _, _, _, _, _), TryUp(_, _, _, _, _, _, _)
-\* Python's backtracking matcher: the end position of the match of atoms k.. at position i, or FAILV
-M(re, k, t, i, full) ==
-  IF k > Len(re.atoms) THEN (IF EndOk(t, i, re.dollar, full) THEN i ELSE FAILV)
+RECURSIVE MB(_, _, _, _, _, _), Try(_, _, _, _, _, _, _, _), TryUp(_, _, _, _, _, _, _, _)
+\* Python's backtracking matcher: the end position of the match of atoms k.. at position i, or FAILV.
+\* ban: an end position that is not accepted (0: none) - after an EMPTY match, re.sub accepts no second empty match
+\* at the same position; the matcher then BACKTRACKS into longer alternatives (sre: must_advance).
+MB(re, k, t, i, full, ban) ==
+  IF k > Len(re.atoms) THEN (IF EndOk(t, i, re.dollar, full) /\ i # ban THEN i ELSE FAILV)
   ELSE LET q == re.atoms[k][2]
            r == Run(t, i, AtomSet(re, k))
            lo == IF q \in {"1", "+", "+?"} THEN 1 ELSE 0
            hi == IF q \in {"1", "?", "??"} THEN (IF r >= 1 THEN 1 ELSE 0) ELSE r
        IN IF hi < lo THEN FAILV
-          ELSE IF q \in Lazy THEN TryUp(re, k, t, i, full, lo, hi) ELSE Try(re, k, t, i, full, hi, lo)
-Try(re, k, t, i, full, n, lo) ==          \* greedy: n = hi, hi-1, ..., lo
-  LET e == M(re, k + 1, t, i + n, full)
-  IN IF e # FAILV THEN e ELSE IF n = lo THEN FAILV ELSE Try(re, k, t, i, full, n - 1, lo)
-TryUp(re, k, t, i, full, n, hi) ==        \* lazy (??, *?, +?): n = lo, lo+1, ..., hi
-  LET e == M(re, k + 1, t, i + n, full)
-  IN IF e # FAILV THEN e ELSE IF n = hi THEN FAILV ELSE TryUp(re, k, t, i, full, n + 1, hi)
+          ELSE IF q \in Lazy THEN TryUp(re, k, t, i, full, lo, hi, ban) ELSE Try(re, k, t, i, full, hi, lo, ban)
+Try(re, k, t, i, full, n, lo, ban) ==          \* greedy: n = hi, hi-1, ..., lo
+  LET e == MB(re, k + 1, t, i + n, full, ban)
+  IN IF e # FAILV THEN e ELSE IF n = lo THEN FAILV ELSE Try(re, k, t, i, full, n - 1, lo, ban)
+TryUp(re, k, t, i, full, n, hi, ban) ==        \* lazy (??, *?, +?): n = lo, lo+1, ..., hi
+  LET e == MB(re, k + 1, t, i + n, full, ban)
+  IN IF e # FAILV THEN e ELSE IF n = hi THEN FAILV ELSE TryUp(re, k, t, i, full, n + 1, hi, ban)
+M(re, k, t, i, full) == MB(re, k, t, i, full, 0)
 RECURSIVE Search(_, _, _)
 \* leftmost match starting at s or later: <<start, end>> or <<>>
 Search(re, t, s) ==
@@ -91,12 +94,20 @@ Matches(re, t) == Search(re, t, 1) # <<>>
 \* "$" in a full match may still stop before a final new-line only if nothing is left: it cannot
 FullMatch(re, t) == M(re, 1, t, 1, TRUE) # FAILV
 Nullable(re) == \A k \in 1..Len(re.atoms) : re.atoms[k][2] \in {"?", "*", "??", "*?"}
-RECURSIVE Sub(_, _, _, _)
-\* left-to-right non-overlapping substitution (regexes that cannot match the empty string)
-Sub(re, t, s, repl) ==
-  LET m == Search(re, t, s)
+RECURSIVE SearchB(_, _, _, _), SubB(_, _, _, _, _)
+\* leftmost match starting at s or later, an empty match AT ban excluded
+SearchB(re, t, s, ban) ==
+  IF s > Len(t) + 1 THEN <<>>
+  ELSE LET e == IF re.caret /\ s # 1 THEN FAILV ELSE MB(re, 1, t, s, FALSE, IF s = ban THEN ban ELSE 0)
+       IN IF e # FAILV THEN <<s, e>> ELSE SearchB(re, t, s + 1, ban)
+\* re.sub (Python >= 3.7): left-to-right non-overlapping substitution; an empty match is replaced too, also when
+\* it is adjacent to the preceding non-empty match; directly after an empty match the next match at the same
+\* position must be non-empty (adv)
+SubB(re, t, s, repl, adv) ==
+  LET m == SearchB(re, t, s, IF adv THEN s ELSE 0)
   IN IF m = <<>> THEN SubSeq(t, s, Len(t))
-     ELSE SubSeq(t, s, m[1] - 1) \o repl \o Sub(re, t, m[2], repl)
+     ELSE SubSeq(t, s, m[1] - 1) \o repl \o SubB(re, t, m[2], repl, m[1] = m[2])
+Sub(re, t, s, repl) == SubB(re, t, s, repl, FALSE)
 
 -----------------------------------------------------------------------------
 (* line matchers, text transformers, text matchers                          *)
@@ -191,6 +202,13 @@ Replaces == [j \in 1..(Len(NonNullable) * Len(Repls) * 2) |->
                LET r == NonNullable[((j - 1) \div (Len(Repls) * 2)) + 1]
                    p == Repls[(((j - 1) \div 2) % Len(Repls)) + 1]
                IN <<"replace", j % 2 = 0, <<>>, r, p>>]
+\* regexes that match the empty string: empty matches are replaced as well (an empty line is one whole match)
+NullableRes == SelectSeq(Regexes, LAMBDA r : Nullable(r))
+NullRepls == << <<CB>>, <<NL>> >>
+ReplacesNullable == [j \in 1..(Len(NullableRes) * Len(NullRepls) * 2) |->
+               LET r == NullableRes[((j - 1) \div (Len(NullRepls) * 2)) + 1]
+                   p == NullRepls[(((j - 1) \div 2) % Len(NullRepls)) + 1]
+               IN <<"replace", j % 2 = 0, <<>>, r, p>>]
 ReplacesAt == << <<"replace", FALSE, <<"lnum", "==", 2>>, Re(FALSE, <<<<"a", "1">>>>, FALSE), <<CB>>>>,
                  <<"replace", TRUE, <<"lnum", "!=", 1>>, Re(FALSE, <<<<"dot", "1">>>>, TRUE), <<>>>>,
                  <<"replace", FALSE, <<"cmatch", FALSE, Re(FALSE, <<<<"b", "1">>>>, FALSE)>>, Re(FALSE, <<<<"nl", "1">>>>, FALSE), <<SP>>>>,
@@ -202,7 +220,7 @@ Seqs == << <<"seq", <<"replace", FALSE, <<>>, Re(FALSE, <<<<"a", "1">>>>, FALSE)
            <<"seq", <<"seq", <<"stripnl">>, <<"replace", FALSE, <<>>, Re(FALSE, <<<<"sp", "1">>>>, FALSE), <<NL>>>>>>,
                     <<"filter", <<"lnum", ">=", 2>>>>>>,
            <<"seq", <<"id">>, <<"seq", <<"grep", FALSE, Re(FALSE, <<<<"a", "1">>>>, FALSE)>>, <<"id">>>>>> >>
-Transformers == Basic \o Filters \o Greps \o Replaces \o ReplacesAt \o Seqs
+Transformers == Basic \o Filters \o Greps \o Replaces \o ReplacesNullable \o ReplacesAt \o Seqs
 
 EqualsTexts == << <<>>, <<NL>>, <<CA>>, <<CA, NL>>, <<CA, NL, CB>>, <<SP>>, <<CA, SP>>, <<NL, NL>> >>
 IntCmps == << <<"==", 0>>, <<"==", 1>>, <<"==", 2>>, <<">=", 2>>, <<"<", 1>>, <<"!=", 3>> >>
